@@ -114,14 +114,14 @@ pub fn coverage(p: &Pos, rep: &mut Report) -> bool {
 }
 
 /// the board carried along the walk through the code's own make(): same comparison
-pub fn check_carried(p: &Pos, bb: &mut inkayaku_board::Bitboard, rep: &mut Report) {
+pub fn check_carried(p: &Pos, bb: &mut inkayaku_board::Bitboard, rep: &mut Report, what: &str) {
     let fen = p.to_fen();
     let reference: BTreeSet<String> = p.legal_moves().iter().map(|m| m.uci()).collect();
     let r = guarded_mut(|| bb.generate_legal_moves().iter().map(|m| m.to_uci_string()).collect::<Vec<_>>());
-    rep.count("carried_board_positions");
+    rep.count(&format!("{}_positions", what.replace('-', "_")));
     match r {
-        Err(pm) => rep.violation(&format!("carried-legal-{}", panic_sig(&pm)), format!("generate_legal_moves panicked on the board carried to {}: {}", fen, pm), json!({"kind":"c01","fen":fen})),
-        Ok(v) => compare_sets(rep, "carried-legal", &fen, p, &v, &reference),
+        Err(pm) => rep.violation(&format!("{}-{}", what, panic_sig(&pm)), format!("generate_legal_moves panicked on the board carried to {}: {}", fen, pm), json!({"kind":"c01","fen":fen})),
+        Ok(v) => compare_sets(rep, what, &fen, p, &v, &reference),
     }
 }
 
